@@ -15,7 +15,7 @@ import (
 // adjacency reference model, op by op.
 
 type GOp struct {
-	Op string `json:"op"` // add | addow | edge | edgew | rmedge | rm | copy | rev
+	Op string `json:"op"` // add | addow | edge | edgew | rmedge | rm | copy | rev | revdrop
 	H  int    `json:"h"`  // handle (modulo live handles)
 	A  int    `json:"a"`
 	B  int    `json:"b"`
@@ -47,7 +47,7 @@ func (C19) Info() core.Info {
 			"Reverse is only taken of a graph that already holds a vertex (a zero-value Graph has no maps to share yet)",
 			"no fault kind applies to this property; S1 only permutes the order of returned slices, which are compared as sets",
 		},
-		Probes:    []string{"c19_ops", "c19_copy", "c19_rev", "c19_rm_with_edges", "c19_overwrite_with_edges", "c19_weight_overwritten", "c19_mutation_through_view", "c19_negative_weight"},
+		Probes:    []string{"c19_ops", "c19_copy", "c19_rev", "c19_rev_taken_and_dropped", "c19_rm_with_edges", "c19_overwrite_with_edges", "c19_weight_overwritten", "c19_mutation_through_view", "c19_negative_weight"},
 		Real:      []string{"internal/graph (woven copy): Add, AddOverwrite, AddEdge, AddEdgeWeighted, RemoveEdge, Remove, Vertex, Vertices, OutEdges, InEdges, Copy, Reverse, String, Dijkstra"},
 		Simulated: []string{"map iteration order at every range site (S1)"},
 	}
@@ -68,6 +68,10 @@ func (C19) Gen(r *simrt.RNG, tier string) core.Case {
 	// op mix weights vary per run (swarm)
 	wAdd, wEdge, wRm, wRmE, wCopy, wRev, wOw := 3+r.Intn(4), 4+r.Intn(8), r.Intn(4), r.Intn(4), r.Intn(3), r.Intn(3), r.Intn(3)
 	tot := wAdd + wEdge + wRm + wRmE + wCopy + wRev + wOw
+	if r.Chance(1, 5) {
+		// a reversed view taken of the still empty graph and dropped: it must not matter later
+		c.Ops = append(c.Ops, GOp{Op: "revdrop", H: 0})
+	}
 	c.Ops = append(c.Ops, GOp{Op: "add", H: 0, A: r.Intn(c.Pool)})
 	for i := 1; i < n; i++ {
 		x := r.Intn(tot)
@@ -315,6 +319,9 @@ func (C19) Run(c core.Case, ctx *core.Ctx) []core.Violation {
 					}
 					ctx.St.Inc("c19_copy")
 					handles = append(handles, &handle{st: h.st.clone(h.rev), g: h.g.Copy()})
+				case "revdrop":
+					ctx.St.Inc("c19_rev_taken_and_dropped")
+					_ = h.g.Reverse()
 				case "rev":
 					if len(handles) >= 6 || len(h.st.present) == 0 {
 						return
